@@ -1,0 +1,114 @@
+// Verification hooks: thin public wrappers around the crate-private bit-level
+// machinery (BitWords, BitReader, BitWriter) so that an external harness can
+// drive it with operation scripts. Compiled only with
+// `--cfg mwlon_quantile_compression_verif`; adds no behaviour to the library.
+
+use crate::bit_reader::BitReader;
+use crate::bit_words::BitWords;
+use crate::bit_writer::BitWriter;
+use crate::errors::{ErrorKind, QCompressError};
+
+fn kind(e: &QCompressError) -> &'static str {
+  match e.kind {
+    ErrorKind::Compatibility => "Compatibility",
+    ErrorKind::Corruption => "Corruption",
+    ErrorKind::InsufficientData => "InsufficientData",
+    ErrorKind::InvalidArgument => "InvalidArgument",
+  }
+}
+
+/// Appends the pieces one by one, optionally truncating whole words from the
+/// left after a piece (`free[i]` words after piece `i`), and returns the
+/// resulting words and bit count.
+pub fn words_script(pieces: &[Vec<u8>], free: &[usize]) -> (Vec<usize>, usize) {
+  let mut words = BitWords::default();
+  for (i, piece) in pieces.iter().enumerate() {
+    words.extend_bytes(piece);
+    let k = free.get(i).cloned().unwrap_or(0);
+    if k > 0 && k <= words.words.len() {
+      words.truncate_left(k);
+    }
+  }
+  (words.words.clone(), words.total_bits)
+}
+
+/// Runs reader operations over the given bytes. Operations (one token each):
+/// `s<idx>` seek_to, `k<n>` seek, `w<n>` rewind, `o` read_one, `r<n>` read,
+/// `d<n>` read_diff::<u128>, `z<n>` read_usize, `v<j>` read_varint,
+/// `t<n>` read_prefix_table_idx, `a<n>` read_aligned_bytes, `e` drain_empty_byte,
+/// `b` bits_remaining, `x` aligned_byte_idx, `O` unchecked_read_one,
+/// `D<n>` unchecked_read_diff::<u128>, `Z<n>` unchecked_read_usize via diff::<u64>,
+/// `V<j>` unchecked_read_varint, `T<n>` unchecked_read_prefix_table_idx.
+/// Every answer is followed by `@<bit_idx>`.
+pub fn reader_script(pieces: &[Vec<u8>], ops: &[String]) -> Vec<String> {
+  let mut words = BitWords::default();
+  for piece in pieces {
+    words.extend_bytes(piece);
+  }
+  let mut reader = BitReader::from(&words);
+  let mut out = Vec::new();
+  for op in ops {
+    let (head, rest) = op.split_at(1);
+    let n: usize = rest.parse().unwrap_or(0);
+    let ans = match head {
+      "s" => { reader.seek_to(n); "ok".to_string() }
+      "k" => { reader.seek(n); "ok".to_string() }
+      "w" => { reader.rewind(n); "ok".to_string() }
+      "o" => match reader.read_one() { Ok(b) => format!("{}", b as u8), Err(e) => format!("err {}", kind(&e)) },
+      "r" => match reader.read(n) {
+        Ok(bs) => bs.iter().map(|&b| if b { '1' } else { '0' }).collect::<String>() + "_",
+        Err(e) => format!("err {}", kind(&e)),
+      },
+      "d" => match reader.read_diff::<u128>(n) { Ok(x) => format!("{:x}", x), Err(e) => format!("err {}", kind(&e)) },
+      "z" => match reader.read_usize(n) { Ok(x) => format!("{:x}", x), Err(e) => format!("err {}", kind(&e)) },
+      "v" => match reader.read_varint(n) { Ok(x) => format!("{:x}", x), Err(e) => format!("err {}", kind(&e)) },
+      "t" => match reader.read_prefix_table_idx(n) { Ok((b, x)) => format!("{}:{:x}", b, x), Err(e) => format!("err {}", kind(&e)) },
+      "a" => match reader.read_aligned_bytes(n) {
+        Ok(bs) => bs.iter().map(|b| format!("{:02x}", b)).collect::<String>() + "_",
+        Err(e) => format!("err {}", kind(&e)),
+      },
+      "e" => match reader.drain_empty_byte(|| QCompressError::corruption("nonzero")) { Ok(()) => "ok".to_string(), Err(e) => format!("err {}", kind(&e)) },
+      "b" => format!("{}", reader.bits_remaining()),
+      "x" => match reader.aligned_byte_idx() { Ok(x) => format!("{}", x), Err(e) => format!("err {}", kind(&e)) },
+      "O" => format!("{}", reader.unchecked_read_one() as u8),
+      "D" => format!("{:x}", reader.unchecked_read_diff::<u128>(n)),
+      "Z" => format!("{:x}", reader.unchecked_read_diff::<u64>(n)),
+      "V" => format!("{:x}", reader.unchecked_read_varint(n)),
+      "T" => format!("{:x}", reader.unchecked_read_prefix_table_idx(n)),
+      _ => "bad-op".to_string(),
+    };
+    out.push(format!("{}@{}", ans, reader.bit_idx()));
+  }
+  out
+}
+
+/// Runs writer operations. Operations: `o<0|1>` write_one, `u<n>:<hex x>` write_usize,
+/// `d<n>:<hex x>` write_diff::<u128>, `v<j>:<hex x>` write_varint, `f` finish_byte,
+/// `a<hex bytes>` write_aligned_bytes, `w<bit_idx>:<n>:<hex x>` overwrite_usize,
+/// `D` drain_bytes, `z` byte_size / bit_size. Every answer is followed by `@<bit_size>`.
+pub fn writer_script(ops: &[String]) -> Vec<String> {
+  let mut writer = BitWriter::default();
+  let mut out = Vec::new();
+  let hex = |s: &str| u128::from_str_radix(s, 16).unwrap_or(0);
+  for op in ops {
+    let (head, rest) = op.split_at(1);
+    let parts: Vec<&str> = rest.split(':').collect();
+    let ans = match head {
+      "o" => { writer.write_one(rest == "1"); "ok".to_string() }
+      "u" => { writer.write_usize(hex(parts[1]) as usize, parts[0].parse().unwrap()); "ok".to_string() }
+      "d" => { writer.write_diff::<u128>(hex(parts[1]), parts[0].parse().unwrap()); "ok".to_string() }
+      "v" => { writer.write_varint(hex(parts[1]) as usize, parts[0].parse().unwrap()); "ok".to_string() }
+      "f" => { writer.finish_byte(); "ok".to_string() }
+      "a" => {
+        let bytes: Vec<u8> = (0..rest.len() / 2).map(|i| u8::from_str_radix(&rest[2 * i..2 * i + 2], 16).unwrap_or(0)).collect();
+        match writer.write_aligned_bytes(&bytes) { Ok(()) => "ok".to_string(), Err(e) => format!("err {}", kind(&e)) }
+      }
+      "w" => { writer.overwrite_usize(parts[0].parse().unwrap(), hex(parts[2]) as usize, parts[1].parse().unwrap()); "ok".to_string() }
+      "D" => format!("bytes {}", writer.drain_bytes().iter().map(|b| format!("{:02x}", b)).collect::<String>()),
+      "z" => format!("{}", writer.byte_size()),
+      _ => "bad-op".to_string(),
+    };
+    out.push(format!("{}@{}", ans, writer.bit_size()));
+  }
+  out
+}
